@@ -36,6 +36,10 @@ func sortedLinesOf(s string) string {
 
 func (e *c02Exec) Check(o *mc.Outcome) []Viol {
 	e.Finish()
+	if !e.Returned && o.End() == "hang" {
+		// every thread is blocked and the call has not returned: the document is neither rendered nor rejected
+		return []Viol{{"C02|neither-rendered-nor-rejected|massive", fmt.Sprintf("driver %s: the call never returns under this schedule (all threads blocked)", e.d)}}
+	}
 	if !e.Returned || o.End() == "panic" {
 		return nil // C11 / C12
 	}
@@ -288,6 +292,8 @@ func init() {
 			"- a\n  -\n- c\n  - d\n", "- a\n  - b\n- c\n   x\n", "- a\n  - b\n    - c\n- d\n      - e\n", "- a\n  - b\n    - c\n      - d\n- e\n  - f\n- g\n        - h\n",
 			"* a\n  + b\n+ c\n  * d\n+ e\n", "+ a\n+ b\n  + c\n+ d\n", "* a\n  - b\n* c\n",
 			"- a\n  - b\n- c\n   - d\n", "- a\n  - b\n- c\n \t- d\n", "- a\n  - b\n- c\n  - d\n\t- e\n",
+			// more malformed root blocks than there are workers of a stage, and a block after them
+			"- a\n  -\n- b\n  x\n- c\n", "- a\n  -\n- b\n   - y\n- c\n    - z\n- d\n  - e\n", "- a\n  x\n- b\n  x\n- c\n  x\n- d\n- e\n",
 		}
 		var out []*Scenario
 		for di, doc := range docs {
